@@ -140,6 +140,9 @@ func main() {
 	verbose := flag.Bool("v", false, "print every obligation")
 	seedFlag := flag.Int("seed", 0, "recorded only; nothing is random")
 	flag.Parse()
+	// go/packages resolves "go" through this process's PATH: /repo needs the 1.26.8 toolchain.
+	os.Setenv("PATH", "/opt/veriftools/go1.26.8/bin:"+os.Getenv("PATH"))
+	os.Unsetenv("GOWORK")
 
 	if *list {
 		for _, r := range allRules {
